@@ -9,6 +9,7 @@ import (
 	"net/http/httptest"
 	"net/url"
 	"runtime"
+	"strconv"
 	"sync"
 	"sync/atomic"
 	"time"
@@ -230,6 +231,17 @@ func runBreaker(sc Scenario, tr *Trace, seed int64) {
 			}
 			code := numOr(st, "code", 200)
 			lat := int(verifhook.Now().Sub(started[id]) / s.tick)
+			if boolOr(st, "abort", false) { // the protected handler aborts (panics) without having answered: not a completed response
+				_, ok := s.drv.finish(id, "panic")
+				if !ok {
+					fatal("breaker: request %s did not return", id)
+				}
+				state[id] = "done"
+				trans, checked := s.take()
+				count(trans)
+				tr.Emit(M{"e": "Abort", "r": id, "trans": trans, "checked": checked})
+				continue
+			}
 			_, ok := s.drv.finish(id, fmt.Sprintf("status:%d", code))
 			if !ok {
 				fatal("breaker: request %s did not return", id)
@@ -260,8 +272,12 @@ func runBreaker(sc Scenario, tr *Trace, seed int64) {
 func stressBreaker(cfg M, tr *Trace, seed int64) {
 	freeze()
 	var codeSeq atomic.Int64
+	var subj *breakerSubject
 	next := http.HandlerFunc(func(w http.ResponseWriter, req *http.Request) {
 		n := codeSeq.Add(1)
+		if id, err := strconv.Atoi(req.Header.Get("X-Id")); err == nil && subj != nil {
+			verifhook.Emit("harness", "h.enter", subj.cb, id) // same sequence counter as the breaker's own hook events
+		}
 		runtime.Gosched()
 		if n%3 == 0 {
 			w.WriteHeader(200)
@@ -271,6 +287,8 @@ func stressBreaker(cfg M, tr *Trace, seed int64) {
 	})
 	c := M{"tick_ms": 100, "expr": "NetworkErrorRatio() > 0.5", "fallback": 20, "recovery": 40, "check": 1, "jitterlog": true}
 	s := newBreakerSubject(c, next)
+	subj = s
+	var reqID atomic.Int64
 	tr.Emit(M{"e": "Reset", "scn": "stress", "cfg": M{"tps": 10, "fallback": 20, "recovery": 40, "check": 1, "win": 10,
 		"ast": M{"k": "neterr", "op": ">", "num": 1, "den": 2}}})
 	rounds := numOr(cfg, "rounds", 30)
@@ -284,7 +302,11 @@ func stressBreaker(cfg M, tr *Trace, seed int64) {
 				defer wg.Done()
 				r := rand.New(rand.NewSource(seed + int64(g) + int64(round)*100))
 				for i := 0; i < 20; i++ {
-					s.cb.ServeHTTP(httptest.NewRecorder(), httptest.NewRequest(http.MethodGet, "http://front/", nil))
+					id := int(reqID.Add(1))
+					req := httptest.NewRequest(http.MethodGet, "http://front/", nil)
+					req.Header.Set("X-Id", strconv.Itoa(id))
+					verifhook.Emit("harness", "h.begin", s.cb, id)
+					s.cb.ServeHTTP(httptest.NewRecorder(), req)
 					if r.Intn(3) == 0 {
 						runtime.Gosched()
 					}
@@ -292,14 +314,23 @@ func stressBreaker(cfg M, tr *Trace, seed int64) {
 			}(g)
 		}
 		wg.Wait()
+		passes := 0
 		for _, e := range hl.stop() {
 			switch e.Ev {
 			case "cb.admit":
+				if e.Args[0].(string) == "pass" {
+					passes++
+				}
 				tr.Emit(M{"e": "CAdmit", "pass": e.Args[0].(string) == "pass", "state": cbStateNames[e.Args[1].(int)]})
 			case "cb.state":
 				tr.Emit(M{"e": "CState", "to": cbStateNames[e.Args[0].(int)]})
+			case "h.begin":
+				tr.Emit(M{"e": "CBegin", "id": e.Args[0].(int)})
+			case "h.enter":
+				tr.Emit(M{"e": "CEnter", "id": e.Args[0].(int)})
 			}
 		}
+		_ = passes
 		d := 1 + (round*7+int(seed))%15
 		advance(time.Duration(d) * s.tick)
 		tr.Emit(M{"e": "Adv", "d": d})
